@@ -378,6 +378,7 @@ func TestVerifC08(t *testing.T) {
 		body           string
 		bodyOk, chainOk bool
 		signOk         bool
+		rawQ           string // appended verbatim to the query string: a malformed escape makes the whole request malformed
 		mp             int  // which InstanceOptions.ErrorMapper the instance carries (c08Mapper); 0 = none
 		mirror         bool // served by an instance with IsMirror (MirrorSTHGetter); oracle-only, the Lean model has no mirror endpoint
 	}
@@ -462,7 +463,8 @@ func TestVerifC08(t *testing.T) {
 			if ctype != "none" {
 				vContentType = ctype
 			}
-			defer func() { vContentType = "" }()
+			vRawQuerySuffix = q.rawQ
+			defer func() { vContentType, vRawQuerySuffix = "", "" }()
 			w := vServe(li, ep, q.method, qv, q.body)
 			st, body = w.Code, w.Body.String()
 		})
@@ -492,6 +494,8 @@ func TestVerifC08(t *testing.T) {
 		}
 		if q.mirror {
 			out.Count("class:mirror-instance")
+		} else if q.rawQ != "" {
+			out.Count("class:malformed-query-string") // oracle only: the model's request has no such field
 		} else {
 			out.T(op, ans)
 		}
@@ -500,6 +504,9 @@ func TestVerifC08(t *testing.T) {
 		key := fmt.Sprintf("ep %s p1=%s p2=%s method=%s sign=%v | %s", ep, q.p1, q.p2, q.method, q.signOk, rep.desc)
 		if ctype != "" {
 			key += " content-type=" + ctype
+		}
+		if q.rawQ != "" {
+			key += " raw-query-suffix=" + q.rawQ
 		}
 		if q.mp != 0 {
 			key = fmt.Sprintf("ErrorMapper#%d ", q.mp) + key
@@ -535,6 +542,9 @@ func TestVerifC08(t *testing.T) {
 			valid = valid && hashOk && aok && a >= 1
 		case "add-chain", "add-pre-chain":
 			valid = valid && q.bodyOk && q.chainOk
+		}
+		if q.rawQ != "" && q.method == "GET" {
+			valid = false // a query string that does not parse is a malformed request, whatever its other pairs say
 		}
 		if !valid {
 			out.Count("class:bad-request")
@@ -653,6 +663,18 @@ func TestVerifC08(t *testing.T) {
 			q.body, q.bodyOk, q.chainOk = base.body+suffix, false, false
 			run(ep, q, clean[ep], false)
 			out.Count("class:trailing-data-body")
+		}
+	}
+	// 3b. a query string with a malformed escape next to otherwise valid parameters
+	for _, ep := range c08Eps {
+		base := reqs[ep][0]
+		if base.method != "GET" {
+			continue
+		}
+		for _, suffix := range []string{"&x=%zz", "&%gg", "&tree_size=%", "&hash=%e", "&first=%2", "%zz", "&a=b%"} {
+			q := base
+			q.rawQ = suffix
+			run(ep, q, clean[ep], false)
 		}
 	}
 	nbad := verifkit.N(1500, 30000)
